@@ -89,10 +89,14 @@ def path_facts(p, tagname, fail_idx, value):
             else:
                 default = True
     binds = [e for e in p.events if e[0] == "call" and re.search(r"Unifier>?::bind$|::bind$", e[1])]
+    # the unifier's own bind (overridden by the occurs-check unifiers), not MachineState::bind
+    foreign = [e for e in binds if not re.search(r"Unifier>?::bind$", e[1])]
     pushes = [e for e in p.events if e[0] == "call" and e[1].endswith("::push") and "HeapCellValue" in e[1]]
     fails = [e[2] for e in p.events if e[0] == "store" and e[1].endswith(".%d" % fail_idx)]
     subs = [e for e in p.events if e[0] == "call" and re.search(
         r"unify_partial_string$|partial_string_to_pdl$", e[1])]
+    if foreign:
+        subs = subs + [("foreign-bind",)]
     return tag, default, binds, pushes, fails, subs
 
 
@@ -122,6 +126,8 @@ def run(thorough=False):
                     # V: variable arms (unify_partial_string recognises variables through as_var)
                     label = "%s x %s: one bind of the cell's own kind at its own location" % (kn, tag or "variable")
                     ok = len(binds) == 1 and not fails and not pushes and not subs
+                    if any(x == ("foreign-bind",) for x in subs):
+                        label += " through the unifier's bind (the occurs-check variants override it)"
                     q = None
                     if ok:
                         r, bound = binds[0][2][1], binds[0][2][2]
@@ -342,6 +348,18 @@ def run(thorough=False):
                     break
             if tgt:
                 routed.setdefault(tag, set()).add(tgt)
+        # a tabu-list hit skips the current pair only: the path goes on with the next pair
+        tabu_paths, tabu_leave = 0, 0
+        for p in paths:
+            hit = any(c[0][0] == "app" and c[0][1].endswith("::contains") and
+                      ((c[1] == "not_in" and 0 in c[2]) or (c[1] == "==" and c[2] != 0)) for c in p.conds)
+            if hit:
+                tabu_paths += 1
+                if p.end not in heads and p.end not in ["LOOP:" + h for h in heads]:
+                    tabu_leave += 1
+        structural.append({"obligation": "unify_internal: a pair already on the tabu list is skipped and the work "
+                           "list is carried on (%d paths)" % tabu_paths, "ok": tabu_paths > 0 and tabu_leave == 0,
+                           "why": "%d of them leave the loop" % tabu_leave})
         for tag, want in ROUTE.items():
             got = routed.get(tag, set())
             structural.append({"obligation": "unify_internal: a %s cell is handled by %s" % (tag, want),
